@@ -9,7 +9,7 @@ Unsupported constructs are embedded at every position of every skeleton: excepti
 import itertools
 import re
 
-from d42 import validate, schema
+from d42 import fake as d42_fake, validate, schema
 from d42.generation import Random, RegexGenerator
 
 import signal
@@ -153,14 +153,30 @@ WIDE_ATOMS = [".", "[^a]", "[^\u0430-\u044f]", "[^a-z\u0430-\u044f]", "[^\u03b1-
 # "word" alphabet stays ASCII unless the user widens it too - that would be the user's mismatch)
 
 
-def run_pattern(rng, p, mr, supported, b, acc, atom_pass=False, wide=False):
-    """Explores generate(p); returns list of (kind, script, detail)."""
-    gen = (RegexGenerator(Random(), alphabet={"letters": wide_letters()}, max_repeat=mr) if wide
-           else RegexGenerator(Random(), max_repeat=mr))
+def run_pattern(rng, p, mr, supported, b, acc, atom_pass=False, wide=False, route="generator"):
+    """Explores generate(p); returns list of (kind, script, detail).
+
+    route 'generator': a fresh RegexGenerator per execution (so a replayed script meets the same
+    state); 'thrice': one fresh instance generates the pattern three times in a row and the LAST
+    string is judged (what an instance keeps between generate() calls); 'fake': through the public
+    fake(schema.str.regex(p)) and the module-level generator."""
+    def make():
+        return (RegexGenerator(Random(), alphabet={"letters": wide_letters()}, max_repeat=mr) if wide
+                else RegexGenerator(Random(), max_repeat=mr))
+
+    def thunk():
+        if route == "fake":
+            return d42_fake(schema.str.regex(p))
+        gen = make()
+        if route == "thrice":
+            gen.generate(p)
+            gen.generate(p)
+        return gen.generate(p)
+
     rx = re.compile(p)
     found = {}
     D = b["D"] if mr == 32 else b["D_other"]
-    items, info = e2.explore_all(rng, lambda: gen.generate(p), D, b["full_cap"], b["max_execs"])
+    items, info = e2.explore_all(rng, thunk, D, b["full_cap"], b["max_execs"])
     if info["capped"]:
         acc.cap("max_execs")
     for script, sites, o in items:
@@ -230,6 +246,14 @@ def worker(shard, nshards, tier, seed):
     for a in WIDE_ATOMS:
         jobs.append(("wide", a, 32))
         jobs.append(("wide", "x" + a + "{2}", 2))
+    # one instance generating the same pattern three times (classes, negations, repeats)
+    for a in ATOMS + ["[^ab]+", "[^ab]x[^a]", "(a|[^b])+", "\\d{2}[^\\d]", "[ab]{2,}"]:
+        jobs.append(("thrice", a, 32))
+    # through the public fake(): every atom (every choice index), and every unsupported pattern
+    for a in ATOMS:
+        jobs.append(("fake-atom", a, 32))
+    for p in uns:
+        jobs.append(("fake-uns", p, 32))
     jobs2 = [("atom2", a, 32) for a in ATOMS]
     jobs2 += [("sup2", p, 32) for p in sup if any(x in p for x in ("\\d", "\\w", "[", "."))]
     mine = [jobs[i] for i in range(shard, len(jobs), nshards)] \
@@ -240,11 +264,18 @@ def worker(shard, nshards, tier, seed):
         acc.count("programs")
         if kind.endswith("2"):
             second_instance()
-        if kind in ("atom", "atom2", "wide"):
+        if kind in ("atom", "atom2", "wide", "fake-atom"):
             with e2.installed(rng_full):
                 found, info = run_pattern(rng_full, p, mr, True, dict(b, full_cap=5000), acc,
-                                          wide=(kind == "wide"))
+                                          wide=(kind == "wide"),
+                                          route="fake" if kind == "fake-atom" else "generator")
             acc.count("atom_pass_exhaustive", int(info["exhaustive"]))
+        elif kind == "thrice":
+            with e2.installed(rng):
+                found, info = run_pattern(rng, p, mr, True, dict(b, D=1, full_cap=300), acc, route="thrice")
+        elif kind == "fake-uns":
+            with e2.installed(rng):
+                found, info = run_pattern(rng, p, mr, False, dict(b, D=1), acc, route="fake")
         elif kind == "sup2":
             with e2.installed(rng):
                 found, info = run_pattern(rng, p, mr, True, dict(b, D=b["D_other"]), acc)
@@ -254,9 +285,11 @@ def worker(shard, nshards, tier, seed):
         acc.count("patterns_" + kind)
         for k, script, detail in found:
             acc.violation(f"C09|{k}|{shape(p)}|max_repeat={mr}",
-                          {"pattern": p, "max_repeat": mr, "supported": kind != "uns",
+                          {"pattern": p, "max_repeat": mr, "supported": kind not in ("uns", "fake-uns"),
+                           "route": ("fake" if kind.startswith("fake") else
+                                     "thrice" if kind == "thrice" else "generator"),
                            "script": [list(x) for x in script], "detail": detail, "kind": k,
-                           "tier": tier, "seed": seed, "atom_pass": kind.startswith("atom") or kind == "wide",
+                           "tier": tier, "seed": seed, "atom_pass": kind.startswith("atom") or kind in ("wide", "fake-atom"),
                            "wide_alphabet": kind == "wide",
                            "second_instance": kind.endswith("2")})
         if (i * nshards + shard) % 1009 == 0:
@@ -295,6 +328,8 @@ def replay(case):
         b = dict(b, D=b["D_other"])
     with e2.installed(rng):
         found, _ = run_pattern(rng, case["pattern"], case["max_repeat"], case["supported"],
-                               dict(b, full_cap=5000) if full else b, acc,
-                               wide=bool(case.get("wide_alphabet")))
+                               dict(b, full_cap=5000) if full else
+                               (dict(b, D=1, full_cap=300) if case.get("route") == "thrice" else
+                                dict(b, D=1) if case.get("route") == "fake" else b), acc,
+                               wide=bool(case.get("wide_alphabet")), route=case.get("route", "generator"))
     return [f"C09|{k}|{shape(case['pattern'])}|max_repeat={case['max_repeat']}" for k, _, _ in found]
